@@ -265,4 +265,41 @@ theorem pyInt_accepts :
     pyInt ['1', '_'] = none ∧ pyInt ['-', ' ', '1'] = none ∧ pyInt [] = none ∧ pyInt ['1', '.', '0'] = none := by
   decide
 
+/-! ## Non-vacuity (review): the hypotheses of the theorems above at concrete inputs -/
+
+-- matchAt_consumes: `h` (the variable `H[ -1]` followed by `+`: 6 of 7 characters consumed)
+example : 0 < 6 ∧ 6 ≤ ['H', '[', ' ', '-', '1', ']', '+'].length :=
+  matchAt_consumes false ['H', '[', ' ', '-', '1', ']', '+'] ⟨.variable, ['H'], some ['-', '1'], 6⟩ (by decide)
+-- scanTerms_spans at a statement with three terms
+example : SpansFrom 0 okStmt.length (scanTerms okStmt) ∧ (scanTerms okStmt).length = 3 :=
+  ⟨scanTerms_spans okStmt, by decide⟩
+-- split_yields_checked at a script that yields two statements (a comment and a blank line are dropped)
+example : ∀ e ∈ (splitStatements ['Y', '=', '(', 'X', '\n', ')', ' ', '#', 'c', '\n', '\n', 'Z', '=', '1']).1,
+    eqSearch e = true ∧ strip e ≠ [] := by decide
+-- format_safe: hb, ha with three real arguments; format_safe_arity: one argument too few; format_cannot_fail: hl
+example : pyFormat (normaliseWs (template okStmt)) [['Y'], ['a'], ['X']] =
+    .ok (renderP (fmtPieces none (normaliseWs (template okStmt))) [['Y'], ['a'], ['X']]) :=
+  (format_safe okStmt [['Y'], ['a'], ['X']] (by decide) (by decide)).2
+example : pyFormat (normaliseWs (template okStmt)) [['Y'], ['a']] = .fail :=
+  format_safe_arity okStmt [['Y'], ['a']] (by decide) (by decide)
+example : pyFormat (normaliseWs (template okStmt))
+    ((([⟨.variable, ['Y'], .int 0⟩] : List Term) ++
+      ([⟨.parameter, ['a'], .int 0⟩, ⟨.variable, ['X'], .int 1⟩] : List Term)).map termStr) ≠ .fail :=
+  (format_cannot_fail okStmt [⟨.variable, ['Y'], .int 0⟩] [⟨.parameter, ['a'], .int 0⟩, ⟨.variable, ['X'], .int 1⟩]
+    (by decide) (by decide)).1
+-- … and the brace hypothesis is a real restriction: `Y = {0}` has a brace outside the matched terms
+example : (outside ['Y', ' ', '=', ' ', '{', '0', '}']).any isBrace = true := by decide
+-- parse_error_classes: `h` for each of the three classes
+example : parseEquationText ['Y', ' ', '=', ' ', '{', '0', '}'] = .err .parserError ∧
+    parseEquationText [' ', 'Y', ' ', '=', ' ', 'X'] = .err .indentationError ∧
+    parseEquationText ['Y', ' ', '=', ' ', '{', 'Y', '}'] = .err .symbolError := by decide
+-- parseScript_error_classes: `h` (a good statement, then a SymbolError; then a split error at the end of input)
+example : EqOut.err .symbolError ∈ parseScript ['Z', '=', '1', '\n', 'Y', '=', '{', 'Y', '}'] := by decide
+example : EqOut.err .parserError ∈ parseScript ['Z', '=', '1', '\n', '`', '`', '`', '\n', 'Y', '=', 'X'] := by decide
+-- parseScript_stops_at_first_error: a member of `dropLast` (first statement good, second fails, third never reached)
+example : (scriptGo [['Z', '=', '1'], ['Y', '=', '{', '0', '}'], ['W', '=', '2']] .ok).length = 2 ∧
+    (scriptGo [['Z', '=', '1'], ['Y', '=', '{', '0', '}'], ['W', '=', '2']] .ok).dropLast ≠ [] ∧
+    ∀ r ∈ (scriptGo [['Z', '=', '1'], ['Y', '=', '{', '0', '}'], ['W', '=', '2']] .ok).dropLast, isErr r = false :=
+  ⟨by decide, by decide, fun r h => parseScript_stops_at_first_error _ _ r h⟩
+
 end Fsic.C13
